@@ -56,7 +56,11 @@ def gen_jobs(rng, tier):
             c['weights_mode'] = ('int', 'int0', 'const', 'sparse', 'int', 'const')[(i // (3 * len(fitgen.PAIRS)) + i) % 6]
             if c['n_mode'] == 'xlarge':
                 c['n_mode'] = 'large'
-        jobs.append(dict(kind=kind, case=c, sub=rng.randrange(10 ** 9)))
+        job = dict(kind=kind, case=c, sub=rng.randrange(10 ** 9))
+        if kind == 'rescale':
+            # styles of affine maps, cycled so that every run has several of each (see _pick_affine)
+            job['style'] = ('std', 'offset', 'tiny', 'std', 'offset', 'huge')[(i // (3 * len(fitgen.PAIRS)) + i) % 6]
+        jobs.append(job)
     for i in range(n_linear * 2):
         cls, dist, link = LINEAR_PAIRS[0] if i % 3 else LINEAR_PAIRS[1]
         c = dict(seed=rng.randrange(10 ** 9), cls=cls, dist=dist, link=link, levels=1, expectile=None, scale=None,
@@ -307,8 +311,35 @@ def _job_perm(job, pygam):
     return res
 
 
-def _pick_affine(rs, lo, span):
-    """(a, b, exact?) : a over 1e-6…1e6 (half of them powers of two), b a moderate multiple of a·span"""
+def _pick_affine(rs, lo, span, style='std'):
+    """x -> a x + b, a > 0.
+    'std'    a over 1e-6…1e6 (half of them powers of two), b a moderate multiple of a·span;
+    'offset' |b| >> a·range: |b| / (a·range) over 1e5…1e9, both signs (an epoch timestamp covering an hour: a = 3600,
+             b = 1.7e9; days since the epoch: a = 1/24, b = 19675; otherwise dyadic a and b so that a x + b is exact for
+             the dyadic data columns and the comparison stays sharp);
+    'tiny'   a over 1e-9…1e-12 at b = 0 (a feature in units of 1e-9 … 1e-12);
+    'huge'   a over 1e9…1e12 at b = 0"""
+    if style == 'tiny' or style == 'huge':
+        sgn = -1 if style == 'tiny' else 1
+        if rs.random() < 0.5:
+            a = float(2.0 ** (sgn * int(rs.integers(30, 41))))
+        else:
+            a = float(10 ** (sgn * rs.uniform(9, 12)))
+        return a, 0.0
+    if style == 'offset':
+        r = rs.random()
+        if r < 0.15:
+            return 3600.0 / span, 1.7e9 - 3600.0 * lo / span
+        if r < 0.3:
+            return (1.0 / 24.0) / span, 19675.0 - lo / span / 24.0
+        ka = int(rs.integers(-20, 21))
+        a = float(2.0 ** ka)
+        ratio = int(rs.integers(17, 31))                      # |b| / (a·range) = 2^17 … 2^30  (1.3e5 … 1.1e9)
+        kb = ka + int(np.round(np.log2(span))) + ratio
+        b = float(2.0 ** kb) * (1.0 if rs.random() < 0.5 else -1.0)
+        if rs.random() < 0.3:
+            b *= 1.5                                          # still few bits
+        return a, b
     if rs.random() < 0.5:
         a = float(2.0 ** int(rs.integers(-20, 21)))
     else:
@@ -341,7 +372,7 @@ def _job_rescale(job, pygam):
     chosen = [f for f in elig if rs.random() < 0.75] or [elig[0]]
     for f in chosen:
         lo, hi = float(X[:, f].min()), float(X[:, f].max())
-        a[f], b[f] = _pick_affine(rs, lo, (hi - lo) or 1.0)
+        a[f], b[f] = _pick_affine(rs, lo, (hi - lo) or 1.0, job.get('style', 'std'))
     Xm, Xqm = X.copy(), Xq.copy()
     for f in chosen:
         Xm[:, f] = a[f] * X[:, f] + b[f]
@@ -615,7 +646,7 @@ def _worker(job):
 STREAM = {'perm': 'rows.permute', 'rescale': 'units.rescale', 'repl': 'weights.replicate', 'add': 'linear.add', 'scale': 'linear.scale'}
 WHAT = {
     'perm': 'real fit on permuted rows vs original: predictions (link scale) and edof equal to thr = max(1e-6, 10 eps cond)',
-    'rescale': 'real fit with spline-only features mapped x -> a x + b (a 1e-6…1e6, query points and user knots mapped): model matrix, edge knots, predictions, edof equal',
+    'rescale': 'real fit with spline-only features mapped x -> a x + b (a 1e-12…1e12; offsets up to 1e9 x a·range, both signs; query points and user knots mapped): model matrix, edge knots, predictions, edof equal',
     'repl': 'real fit with integer weights vs replicated rows: predictions and edof equal',
     'add': 'LinearGAM / GAM(normal, identity): predictions of fit(y1 + y2) = sum of predictions, edof independent of y',
     'scale': 'LinearGAM / GAM(normal, identity): fit(c y), c over ±1e-6…1e6: predictions x c, edof and p-values unchanged, scale / GCV / cov x c²',
@@ -695,6 +726,10 @@ def _judge(r):
     return bad, thr, True
 
 
+def _lbk(x):
+    return int(np.floor(np.log10(x))) if (np.isfinite(x) and x > 0) else 'zero'
+
+
 def _parse_mat(s):
     return np.array([float(Fraction(t)) for t in s.split()], dtype=float)
 
@@ -761,6 +796,8 @@ def run(ctx):
         if kind == 'rescale':
             ctx.count('rescale: knot-safe', str(r['safe']))
             ctx.count('rescale: a decade', int(np.floor(np.log10(max(max(r['a']), 1.0 / min(r['a']))))))
+            ctx.count('rescale: style', job.get('style', 'std'))
+            ctx.count('rescale: log10 |b| / (a range)', _lbk(r['kappa']))
         if kind == 'scale':
             ctx.count('scale: |c| decade', int(np.floor(np.log10(abs(r['c'])))))
         confirmed = False
